@@ -61,7 +61,15 @@ def delete_chain(e: ast.expr) -> Tuple[str, List[Tuple[str, str]]]:
 
 def analyse_get_object_results(ctx: Ctx):
     fi = ctx.func(ORQ + "get_object_results")
-    paths = enum_paths(ctx, fi)
+    # helpers of the same module that are called inside the greedy loops are part of the selection / removal logic: inline them
+    helpers = set()
+    local_fns = {n.name for n in fi.module.tree.body if isinstance(n, ast.FunctionDef)}
+    for lp in ast.walk(fi.node):
+        if isinstance(lp, (ast.While, ast.For)):
+            for c in ast.walk(lp):
+                if isinstance(c, ast.Call) and isinstance(c.func, ast.Name) and c.func.id in local_fns:
+                    helpers.add(c.func.id)
+    paths = enum_paths(ctx, fi, inline=sorted(helpers))
     main = [p for p in paths if any(e.kind == "loop" for e in p.effects)]
     ctx.require(bool(main), "get_object_results: no path with the greedy loops")
     loops = loops_of(main)
@@ -365,6 +373,17 @@ def rule_score_table(ctx: Ctx, rule: str = "C01-score-table") -> None:
     ok = t.startswith("np.full(") and "(np.nan,False)" in t
     ctx.check(ok, rule, "_get_score_table", "init-nan", f"the score table is initialised with `{t[:100]}`; unmatchable cells must be (NaN, False)", fi=fi,
               expected="np.full((rows, cols, 2), (np.nan, False))", found=t[:120])
+    # the scores are compared exactly as computed: the table may not narrow them (float32 / float16 / int collapse distinct scores into ties)
+    dt = None
+    if isinstance(init, ast.Call):
+        dt = next((S(k.value) for k in init.keywords if k.arg == "dtype"), S(init.args[2]) if len(init.args) > 2 else None)
+    ctx.check(dt in (None, "float", "np.float64", "np.double", "numpy.float64", "object", "np.longdouble", "'float64'", "'f8'"), rule, "_get_score_table", "init-dtype",
+              f"the score table is allocated with dtype={dt}: scores computed in double precision are narrowed, distinct scores can collapse into a tie and input order then decides the pairing",
+              fi=fi, expected="no dtype (float64)", found=str(dt))
+    for p in paths:
+        for e in p.effects:
+            if e.kind in ("assign", "store") and e.value is not None and ".astype(" in S(e.value) and "score" in S(e.value):
+                ctx.violate(rule, "_get_score_table", "narrowed", f"scores are converted by `{S(e.value)[:80]}` before they are compared", fi=fi)
     stores = 0
     store_nodes = set()
     for bp in i0.body:
